@@ -1,3 +1,286 @@
 import Driver.Common
--- stub driver for C16 (replaced when the property's model is built)
-def main (args : List String) : IO UInt32 := Driver.main' (fun _ => "bad-op") (fun _ _ => "fail bad-op") args
+import GilVerif.Model.C16
+open Driver GilVerif.Model.C16
+
+def splitOn' (sep : String) (ws : List String) : List (List String) :=
+  let rec go (ws : List String) (cur : List String) (acc : List (List String)) : List (List String) :=
+    match ws with
+    | [] => (cur.reverse :: acc).reverse
+    | w :: rest => if w = sep then go rest [] (cur.reverse :: acc) else go rest (w :: cur) acc
+  go ws [] []
+
+def showPlanes (w h : Nat) (planes : List (List Int)) : String :=
+  toString w ++ " " ++ toString h ++ " : " ++ " | ".intercalate (planes.map showInts)
+
+/-- observation "w h : g0 | g1 ..." -> (w, h, groups of words) -/
+def parseObs (obs : String) : Option (Nat × Nat × List (List String)) :=
+  match splitOn' "|" (words obs) with
+  | (w :: h :: ":" :: p0) :: rest =>
+    match ints [w, h] with
+    | some [w, h] => some (w.toNat, h.toNat, p0 :: rest)
+    | _ => none
+  | _ => none
+
+def pairOf (p : String) : Option (Ch × Ch) :=
+  match p with
+  | "rgb8" => some (.u8, .u8) | "rgb8p" => some (.u8, .u8)
+  | _ => match p.splitOn "_" with
+    | [a, b] => match Ch.parse a, Ch.parse b with
+      | some a, some b => some (a, b)
+      | _, _ => none
+    | _ => none
+
+def kindOf (kind dir : String) : Option Kind :=
+  match kind, dir with
+  | "bin", "reg" => some .binReg | "bin", "inv" => some .binInv
+  | "binmax", "reg" => some .binReg | "binmax", "inv" => some .binInv
+  | "tt", "reg" => some .truncThrReg | "tt", "inv" => some .truncThrInv
+  | "tz", "reg" => some .truncZeroReg | "tz", "inv" => some .truncZeroInv
+  | _, _ => none
+
+structure Th where
+  s : Ch
+  d : Ch
+  k : Kind
+  w : Nat
+  h : Nat
+  t : Int
+  mx : Int
+  planes : List (List Int)
+
+def parseTh (line : String) : Option Th :=
+  match splitOn' "|" (words line) with
+  | ["th", kind, dir, pair, w, h, t, mx] :: planesW =>
+    match pairOf pair, kindOf kind dir, ints [w, h, t, mx], planesW.mapM ints with
+    | some (s, d), some k, some [w, h, t, mx], some planes =>
+      some { s := s, d := d, k := k, w := w.toNat, h := h.toNat, t := d.wrap t, mx := if kind == "binmax" then d.hi else d.wrap mx, planes := planes }
+    | _, _, _, _ => none
+  | _ => none
+
+def firstDiff (a b : List Int) : Option Nat :=
+  let rec go (a b : List Int) (i : Nat) : Option Nat :=
+    match a, b with
+    | [], [] => none
+    | x :: xs, y :: ys => if x = y then go xs ys (i + 1) else some i
+    | _, _ => some i
+  go a b 0
+
+def judgePlanes (expect : List (List Int)) (got : List (List String)) (clause : String) : String :=
+  match got.mapM ints with
+  | none => "fail not-a-value"
+  | some got =>
+    if got.length ≠ expect.length then "fail shape" else
+    let rec go (e g : List (List Int)) (ch : Nat) : String :=
+      match e, g with
+      | e0 :: es, g0 :: gs =>
+        match firstDiff g0 e0 with
+        | none => go es gs (ch + 1)
+        | some i => "fail " ++ clause ++ "@ch" ++ toString ch ++ "," ++ toString i
+      | _, _ => "ok"
+    go expect got 0
+
+/-! ### Otsu -/
+
+structure Ot where
+  c : Ch
+  inv : Bool
+  w : Nat
+  h : Nat
+  planes : List (List Int)
+
+def chOfOt : String → Option Ch
+  | "rgb8" => some .u8 | "rgb16" => some .u16 | s => Ch.parse s
+
+def parseOt (line : String) : Option Ot :=
+  match splitOn' "|" (words line) with
+  | ["ot", c, dir, w, h] :: planesW =>
+    match chOfOt c, ints [w, h], planesW.mapM ints with
+    | some c, some [w, h], some planes => some { c := c, inv := dir == "inv", w := w.toNat, h := h.toNat, planes := planes }
+    | _, _, _ => none
+  | _ => none
+
+def modelOt (o : Ot) : String :=
+  -- known finding: nth_channel_view evaluates src(0,0) before anything else (assert-enabled builds)
+  if o.w == 0 then "assert:0<=x&&x<width()"
+  else if o.h == 0 then "assert:0<=y&&y<height()"
+  else
+    match o.planes.mapM (fun p => otsuChannel o.c true o.inv p) with
+    | .ok planes => showPlanes o.w o.h planes
+    | .error .divZero => "ub:division-by-zero"
+    | .error .histIndex => "ub:histogram-index-out-of-range"
+
+/-- ∃ T: every destination value is `threshold_binary(src, T)`: regular: dst = hi ⇔ src > T -/
+def otsuConsistent (c : Ch) (inv : Bool) (src dst : List Int) : Option String :=
+  if src.length ≠ dst.length then some "shape" else
+  if dst.any (fun v => v ≠ 0 ∧ v ≠ c.hi) then some "otsu-output-is-binary" else
+  let pairs := src.zip dst
+  let above := (pairs.filter (fun (_, d) => if inv then d = 0 else d = c.hi)).map (·.1)     -- must be > T
+  let below := (pairs.filter (fun (_, d) => if inv then d = c.hi else d = 0)).map (·.1)     -- must be ≤ T
+  match below.foldl (fun (m : Option Int) v => match m with | none => some v | some x => some (max x v)) none,
+        above.foldl (fun (m : Option Int) v => match m with | none => some v | some x => some (min x v)) none with
+  | some b, some a => if b < a then none else some "otsu-output-is-threshold-binary-for-some-T"
+  | _, _ => none
+
+def judgeOt (o : Ot) (obs : String) : String :=
+  if obs.startsWith "ub:" || obs.startsWith "crash" || obs.startsWith "timeout" then "fail otsu-no-ub"
+  else if obs.startsWith "assert:" then
+    if o.w == 0 ∨ o.h == 0 then "fail returns-normally-on-empty-image" else "fail no-assertion-failure"
+  else match parseObs obs with
+  | none => "fail not-an-image:" ++ obs.take 40
+  | some (w, h, groups) =>
+    if w ≠ o.w ∨ h ≠ o.h then "fail shape" else
+    match groups.mapM ints with
+    | none => "fail not-a-value"
+    | some dst =>
+      if dst.length ≠ o.planes.length then "fail shape" else
+      match (o.planes.zip dst).findSome? (fun (s, d) => otsuConsistent o.c o.inv s d) with
+      | some e => "fail " ++ e
+      | none => "ok"
+
+/-! ### morphology -/
+
+structure Mo where
+  w : Nat
+  h : Nat
+  ks : Nat
+  cy : Nat
+  cx : Nat
+  iters : Nat
+  ker : List Int
+  planes : List (List Int)
+
+def parseMo (line : String) : Option Mo :=
+  match splitOn' "|" (words line) with
+  | ["mo", _c, w, h, ks, cy, cx, iters] :: kerW :: planesW =>
+    match ints [w, h, ks, cy, cx, iters], ints kerW, planesW.mapM ints with
+    | some [w, h, ks, cy, cx, iters], some ker, some planes =>
+      if ker.length ≠ (ks * ks).toNat ∨ w < 1 ∨ h < 1 ∨ ks < 1 ∨ cy < 0 ∨ cx < 0 ∨ cy ≥ ks ∨ cx ≥ ks ∨ iters < 0 then none
+      else some { w := w.toNat, h := h.toNat, ks := ks.toNat, cy := cy.toNat, cx := cx.toNat, iters := iters.toNat, ker := ker, planes := planes }
+    | _, _, _ => none
+  | _ => none
+
+def moResults (o : Mo) (p : List Int) : List (List Int) :=
+  let opn := opening o.w o.h o.ker o.ks o.cy o.cx p
+  let cls := closing o.w o.h o.ker o.ks o.cy o.cx p
+  [dilate o.w o.h o.ker o.ks o.cy o.cx o.iters p, erode o.w o.h o.ker o.ks o.cy o.cx o.iters p, opn, cls,
+   opening o.w o.h o.ker o.ks o.cy o.cx opn, closing o.w o.h o.ker o.ks o.cy o.cx cls]
+
+def modelMo (o : Mo) : String :=
+  let perPlane := o.planes.map (moResults o)          -- plane -> 6 results
+  let groups := (List.range 6).map fun (r : Nat) => " / ".intercalate (perPlane.map fun res => showInts (res.getD r []))
+  toString o.w ++ " " ++ toString o.h ++ " : " ++ " | ".intercalate groups
+
+/-- Spec: max / min over {self} ∪ in-image neighbours (neighbourhood from the structuring element) -/
+def specMorph (o : Mo) (dilation : Bool) (p : List Int) : List Int :=
+  let pts := (List.range (o.w * o.h))
+  pts.map fun (i : Nat) =>
+    let px : Int := (i % o.w : Nat); let py : Int := (i / o.w : Nat)
+    pts.foldl (fun acc (j : Nat) =>
+      let qx : Int := (j % o.w : Nat); let qy : Int := (j / o.w : Nat)
+      if isNeighbour o.ker o.ks o.cy o.cx px py qx qy then
+        (if dilation then max acc (p.getD j 0) else min acc (p.getD j 0)) else acc) (p.getD i 0)
+
+def symmetricSE (o : Mo) : Bool :=
+  let pts := (List.range (o.w * o.h))
+  pts.all fun (i : Nat) => pts.all fun (j : Nat) =>
+    let px : Int := (i % o.w : Nat); let py : Int := (i / o.w : Nat)
+    let qx : Int := (j % o.w : Nat); let qy : Int := (j / o.w : Nat)
+    i == j || isNeighbour o.ker o.ks o.cy o.cx px py qx qy == isNeighbour o.ker o.ks o.cy o.cx qx qy px py
+
+def leAll (a b : List Int) : Bool := a.length == b.length && (a.zip b).all (fun (x, y) => x ≤ y)
+
+def judgeMoPlane (o : Mo) (sym : Bool) (src : List Int) (r : List (List Int)) : Option String :=
+  let dil := r.getD 0 []; let ero := r.getD 1 []; let opn := r.getD 2 []; let cls := r.getD 3 []
+  let opn2 := r.getD 4 []; let cls2 := r.getD 5 []
+  let sd := iterate (specMorph o true) o.iters src
+  let se := iterate (specMorph o false) o.iters src
+  if dil ≠ sd then some "dilate-is-max-over-neighbourhood"
+  else if ero ≠ se then some "erode-is-min-over-neighbourhood"
+  else if !(leAll ero src && leAll src dil) then some "erode<=src<=dilate"
+  else if opn ≠ specMorph o true (specMorph o false src) then some "opening-is-dilate-of-erode"
+  else if cls ≠ specMorph o false (specMorph o true src) then some "closing-is-erode-of-dilate"
+  else if sym && !(leAll opn src && leAll src cls) then some "opening<=src<=closing"
+  else if sym && (opn2 ≠ opn ∨ cls2 ≠ cls) then some "opening-closing-idempotent"
+  else none
+
+def judgeMo (o : Mo) (obs : String) : String :=
+  match parseObs obs with
+  | none => "fail not-an-image:" ++ obs.take 40
+  | some (w, h, groups) =>
+    if w ≠ o.w ∨ h ≠ o.h ∨ groups.length ≠ 6 then "fail shape" else
+    -- groups: 6 results, each "plane / plane / ..."
+    match groups.mapM (fun g => (splitOn' "/" g).mapM ints) with
+    | none => "fail not-a-value"
+    | some res =>     -- res[r][plane]
+      let sym := symmetricSE o
+      let n := o.planes.length
+      if res.any (fun r => r.length ≠ n) then "fail shape" else
+      match (List.range n).findSome? (fun (pl : Nat) => judgeMoPlane o sym (o.planes.getD pl []) (res.map fun r => r.getD pl [])) with
+      | some e => "fail " ++ e
+      | none => "ok"
+
+/-! ### median -/
+
+structure Me where
+  w : Nat
+  h : Nat
+  k : Nat
+  planes : List (List Int)
+
+def parseMe (line : String) : Option Me :=
+  match splitOn' "|" (words line) with
+  | ["me", _c, w, h, k] :: planesW =>
+    match ints [w, h, k], planesW.mapM ints with
+    | some [w, h, k], some planes => if w < 1 ∨ h < 1 ∨ k < 1 then none else some { w := w.toNat, h := h.toNat, k := k.toNat, planes := planes }
+    | _, _ => none
+  | _ => none
+
+def modelMe (o : Me) : String := showPlanes o.w o.h (o.planes.map (medianFilter o.w o.h o.k))
+
+def judgeMe (o : Me) (obs : String) : String :=
+  match parseObs obs with
+  | none => "fail not-an-image:" ++ obs.take 40
+  | some (w, h, groups) =>
+    if w ≠ o.w ∨ h ≠ o.h then "fail shape" else
+    match groups.mapM ints with
+    | none => "fail not-a-value"
+    | some dst =>
+      if dst.length ≠ o.planes.length then "fail shape" else
+      let bad := (o.planes.zip dst).findSome? fun (src, d) =>
+        if d.length ≠ o.w * o.h then some "shape" else
+        (List.range (o.w * o.h)).findSome? fun (i : Nat) =>
+          if isMedian (medianWindowSpec (imgFn o.w src) o.w o.h o.k (i % o.w) (i / o.w)) (d.getD i 0) then none
+          else some ("median-of-edge-replicated-neighbourhood@" ++ toString (i % o.w) ++ "," ++ toString (i / o.w))
+      match bad with
+      | some e => "fail " ++ e
+      | none => "ok"
+
+/-! ### thresholds -/
+
+def modelTh (o : Th) : String :=
+  showPlanes o.w o.h (o.planes.map (thresholdPlane o.s o.d o.k o.t o.mx))
+
+def judgeTh (o : Th) (obs : String) : String :=
+  match parseObs obs with
+  | none => "fail not-an-image:" ++ obs.take 40
+  | some (w, h, groups) =>
+    if w ≠ o.w ∨ h ≠ o.h then "fail shape" else
+    judgePlanes (o.planes.map fun p => p.map fun px => o.d.wrap (thresholdSpec o.k px o.t o.mx)) groups "threshold-per-channel-comparison"
+
+def model (line : String) : String :=
+  match (words line).head? with
+  | some "th" => match parseTh line with | some o => modelTh o | none => "bad-op"
+  | some "ot" => match parseOt line with | some o => modelOt o | none => "bad-op"
+  | some "mo" => match parseMo line with | some o => modelMo o | none => "bad-op"
+  | some "me" => match parseMe line with | some o => modelMe o | none => "bad-op"
+  | _ => "bad-op"
+
+def judge (op obs : String) : String :=
+  match (words op).head? with
+  | some "th" => match parseTh op with | some o => judgeTh o obs | none => "fail bad-op"
+  | some "ot" => match parseOt op with | some o => judgeOt o obs | none => "fail bad-op"
+  | some "mo" => match parseMo op with | some o => judgeMo o obs | none => "fail bad-op"
+  | some "me" => match parseMe op with | some o => judgeMe o obs | none => "fail bad-op"
+  | _ => "fail bad-op"
+
+def main (args : List String) : IO UInt32 := Driver.main' model judge args
